@@ -163,7 +163,7 @@ def run(seed, tier, lean) -> Result:
                       '(after a switch) on the original; at the copy: equal canonical state, no shared node / attacker / mutable container (id()), '
                       'all references closed inside the copy; after every later operation the other graph is unchanged; both views compared with the '
                       'Lean store model; non-trivial = the graph has an attacker with a reached step and a node with non-empty tags/extras/ttc when copied')
-    n = 300 if tier == 'quick' else 12000
+    n = 300 if tier == 'quick' else 1800
     hists = [gen_history(random.Random(rnd.getrandbits(48))) for _ in range(n)]
     model = run_driver([{'op': 'ag_hist', 'case': i, 'ops': h} for i, h in enumerate(hists)]) if lean['build_ok'] else None
     for hi, ops in enumerate(hists):
@@ -188,7 +188,7 @@ def run(seed, tier, lean) -> Result:
                                                 fingerprint='C14:model-divergence:' + ops[at]['k'], replay={'ops': ops[:at + 1], **info}, no_failing_input=True))
         if len(res.samples) < 2: res.samples.append({'ops': ops[:8] + ['...'] + ops[k:k + 4]})
     rnd2 = random.Random(seed ^ 0x14C14)
-    for _ in range(300 if tier == 'quick' else 10000):
+    for _ in range(300 if tier == 'quick' else 1800):
         sc = gen_extra(rnd2)
         res.evaluations += 1; res.bump('extra:' + sc['kind'])
         bad = run_extra(sc)
